@@ -1215,9 +1215,12 @@ def check_C06(ctx, rep):
         # sum local writers
     # R4/R1 returns
     for (rb, rk, v) in ret_defs(fa):
-        if v[0] == 'agg' and v[2] == 'None':
+        none_by_residual = is_call(v, 'FromResidual::from_residual') and fn.output.startswith('core::option::Option')
+        if (v[0] == 'agg' and v[2] == 'None') or none_by_residual:
             for S in pf.at(rb, rk):
                 no_vec = any(f[0] == 'variant' and f[2] == 'None' and slot_ok(f[1]) for f in S)
+                # `self.transitions[..].as_ref()?`: the Break edge of Try::branch on the slot
+                no_vec = no_vec or any(f[0] == 'variant' and f[2] == 'Break' and is_call(unload(f[1]), '::branch') and slot_ok(f[1]) for f in S)
                 exhausted = any(f[0] == 'variant' and f[2] == 'None' and contains(f[1], lambda x: is_call(x, 'Iterator>::next') or is_call(x, 'Iterator::next')) for f in S)
                 rep.ob('C06.R4', fn, 'None-only-when-no-vector-or-exhausted', no_vec or exhausted, '' if (no_vec or exhausted) else show_facts(S))
         elif v[0] == 'agg' and v[2] == 'Some':
